@@ -24,6 +24,8 @@ def demo_cmd(src, tree):
         if os.path.exists(os.path.join(demo, n)):
             readme = open(os.path.join(demo, n)).read()
     tests = glob.glob(os.path.join(demo, "*_test.go"))
+    if os.path.exists(os.path.join(demo, "run.sh")):
+        return (lambda: None), "bash run.sh %s" % tree, demo
     if os.path.exists(os.path.join(demo, "go.mod")):
         gm = open(os.path.join(demo, "go.mod")).read()
         gm = re.sub(r"=>\s*\S+", "=> %s/v2" % tree, gm)
